@@ -57,6 +57,10 @@ func valueBytes(s string) ref.R[[]byte] {
 type c04server struct {
 	invoked map[int]int
 	streams map[int][]string
+
+	bgStarted, bgDone int
+	bgPanics          []string
+	bgSts             []string
 }
 
 // handler implements every call kind; everything it does is a function of the call id inside the request.
@@ -67,6 +71,9 @@ func (h *c04server) handle(ctx Context, ch ServerChannel) (ref.R[[]byte], status
 	}
 	call := req.Calls().Get(0)
 	kind := call.Method().Unwrap()
+	if i := strings.IndexByte(kind, '/'); i >= 0 {
+		kind = kind[:i] // "send/skip": the part after the slash is the CLIENT's reading mode
+	}
 	id := int(call.Input().Int32(1))
 	h.invoked[id]++
 	rctx := async.NoContext()
@@ -125,6 +132,24 @@ func (h *c04server) handle(ctx Context, ch ServerChannel) (ref.R[[]byte], status
 			}
 		}
 		return nil, status.New(status.Code(fmt.Sprintf("my_code_%d", id)), fmt.Sprintf("msg %d", id))
+	case "bg":
+		// a helper goroutine of the handler sends on the call's channel; the handler does not wait for it, so the helper
+		// may still be inside Send when the server frees the call (a late operation must get a closed status or finish
+		// on ITS call, never touch the recycled state's next owner)
+		h.bgStarted++
+		vsched.GoNamed(fmt.Sprintf("bg-helper-%d", id), func() {
+			defer func() {
+				if e := recover(); e != nil {
+					h.bgPanics = append(h.bgPanics, fmt.Sprint(e))
+				}
+				h.bgDone++
+			}()
+			for i := 0; i < 2; i++ {
+				st := ch.Send(rctx, []byte(fmt.Sprintf("bg%d-%d", id, i)))
+				h.bgSts = append(h.bgSts, string(st.Code))
+			}
+		})
+		return valueBytes(fmt.Sprintf("res-%d", id)), status.OK
 	case "slow":
 		// never answers on its own: waits until the caller gives up (channel closed / connection lost)
 		for {
@@ -177,6 +202,28 @@ func c04call(c Client, kind string, id int, r *c04result) {
 		}
 		if st := ch.SendEnd(ctx); !st.OK() {
 			r.note += " end:" + string(st.Code)
+		}
+		res, st := ch.Response(ctx)
+		r.st = st
+		if st.OK() {
+			r.result = res.String().Clone()
+		}
+	case "sstream/skip", "send/skip", "sfail/skip", "sstream/part", "send/part", "sfail/part":
+		// the caller asks for the response without having read the stream (or after one message of it): Response
+		// skips what is left of the stream, including the end marker
+		ch, st := c.Channel(ctx, req)
+		if !st.OK() {
+			r.st = st
+			return
+		}
+		defer ch.Free()
+		if strings.HasSuffix(kind, "/part") {
+			m, st := ch.Receive(ctx)
+			if !st.OK() {
+				r.streamSt = st
+			} else {
+				r.stream = append(r.stream, string(m))
+			}
 		}
 		res, st := ch.Response(ctx)
 		r.st = st
@@ -248,6 +295,18 @@ func c04check(x *vexp.Ctx, r *c04result, h *c04server, faulty bool) {
 		want := fmt.Sprintf("[s%d-0 s%d-1]", r.id, r.id)
 		if string(r.st.Code) != fmt.Sprintf("my_code_%d", r.id) || r.st.Message != fmt.Sprintf("msg %d", r.id) || fmt.Sprint(r.stream) != want || r.streamSt.Code != status.CodeEnd {
 			x.Fail("streaming call that fails after streaming: application status or stream not delivered to its caller", "%s: got code=%q message=%q stream=%v streamEnd=%v", name, r.st.Code, r.st.Message, r.stream, r.streamSt.Code)
+		}
+	case "sstream/skip", "send/skip", "sstream/part", "send/part", "sfail/skip", "sfail/part":
+		wantStream := "[]"
+		if strings.HasSuffix(r.kind, "/part") {
+			wantStream = fmt.Sprintf("[s%d-0]", r.id)
+		}
+		if strings.HasPrefix(r.kind, "sfail") {
+			if string(r.st.Code) != fmt.Sprintf("my_code_%d", r.id) || r.st.Message != fmt.Sprintf("msg %d", r.id) || fmt.Sprint(r.stream) != wantStream {
+				x.Fail("Response before the stream was read: application status not delivered to its caller", "%s: got code=%q message=%q stream=%v", name, r.st.Code, r.st.Message, r.stream)
+			}
+		} else if !r.st.OK() || r.result != fmt.Sprintf("res-%d", r.id) || fmt.Sprint(r.stream) != wantStream {
+			x.Fail("Response before the stream was read: result or status wrong", "%s: status=%v result=%q stream=%v want res-%d", name, r.st, r.result, r.stream, r.id)
 		}
 	case "sstream", "send":
 		want := fmt.Sprintf("[s%d-0 s%d-1]", r.id, r.id)
@@ -387,6 +446,171 @@ func init() {
 			c.Close()
 			vsched.WaitIdle("quiesce")
 			x.Outcome = fmt.Sprintf("conns=%d responses=%d", vc.ServerConns(), got)
+		},
+	})
+
+	// S5: the caller asks for the response before it has read the server's stream.
+	vexp.Register(&vexp.Scenario{
+		Name: "c04.S5.response-before-stream-is-read", Prop: "C04", MaxSteps: 100000,
+		Bounds: func(thorough bool) vexp.Bounds {
+			if thorough {
+				return vexp.Bounds{P: 1, F: 1, E: 0}
+			}
+			return vexp.Bounds{P: 1, F: 0, E: 0}
+		},
+		Configs: func(thorough bool) []map[string]int {
+			var out []map[string]int
+			for k := 0; k < 6; k++ {
+				out = append(out, map[string]int{"kind": k})
+			}
+			return out
+		},
+		Doc: "a server-streaming call (plain, with an explicit SendEnd, ending with an application status) whose caller calls Response at once or after one stream message, next to a concurrent unary call, then a late call of the same kind on the recycled call state: Response must skip the rest of the stream and the end marker and return the caller's own result / status, in every interleaving of the server's sends with the caller",
+		Body: func(x *vexp.Ctx) {
+			kinds := []string{"sstream/skip", "send/skip", "sfail/skip", "sstream/part", "send/part", "sfail/part"}
+			h := &c04server{invoked: map[int]int{}, streams: map[int][]string{}}
+			srv := &server{handler: HandleFunc(h.handle)}
+			vc := mpx.VNewClient(x, srv, false, nil)
+			srv.logger = vc.Logger()
+			c := newClient(vc.Client, vc.Logger())
+			rs := []*c04result{{kind: kinds[x.P("kind", 0)], id: 41}, {kind: "ok", id: 42}}
+			for _, r := range rs {
+				r := r
+				vsched.GoNamed("call-"+r.kind, func() { c04call(c, r.kind, r.id, r) })
+			}
+			vsched.Join("calls returned", func() bool { return rs[0].done && rs[1].done })
+			vsched.WaitIdle("quiesce")
+			for _, r := range rs {
+				c04check(x, r, h, false)
+			}
+			late := &c04result{kind: rs[0].kind, id: 43}
+			vsched.GoNamed("late-call", func() { c04call(c, late.kind, late.id, late) })
+			vsched.Join("late call returned", func() bool { return late.done })
+			vsched.WaitIdle("quiesce")
+			c04check(x, late, h, false)
+			c.Close()
+			vsched.WaitIdle("quiesce")
+			x.Outcome = fmt.Sprintf("st=%s/%s late=%s", rs[0].st.Code, rs[1].st.Code, late.st.Code)
+		},
+	})
+
+	// C18, rpc call states: an operation still in flight on a call when the call is freed.
+	vexp.Register(&vexp.Scenario{
+		Name: "c18.rpc.free-while-operation-in-flight", Prop: "C18", Also: []string{"C04"}, MaxSteps: 200000,
+		Bounds: func(thorough bool) vexp.Bounds {
+			if thorough {
+				return vexp.Bounds{P: 2, F: 1, E: 0}
+			}
+			return vexp.Bounds{P: 1, F: 1, E: 0}
+		},
+		Configs: func(thorough bool) []map[string]int {
+			return []map[string]int{{"side": 0}, {"side": 1}}
+		},
+		Doc: "side=0: the server handler of call A starts a helper goroutine that sends two stream messages and returns without waiting for it, so the helper can be inside Send when the server frees A's pooled call state; side=1: the client frees call A from one goroutine while another is inside Receive on it. Then call B (server-streaming) runs on the recycled state. The late operation must not touch a state that is not its own (no nil-state panic; mpx's deliberate 'acquire of freed channel' report is tolerated) and otherwise ends with OK / a closed status, B must receive exactly its own stream and result, A's caller its own result",
+		Body: func(x *vexp.Ctx) {
+			h := &c04server{invoked: map[int]int{}, streams: map[int][]string{}}
+			srv := &server{handler: HandleFunc(h.handle)}
+			x.Params["maxconns"] = 1
+			vc := mpx.VNewClient(x, srv, false, nil)
+			srv.logger = vc.Logger()
+			c := newClient(vc.Client, vc.Logger())
+			ctx := async.NoContext()
+			var aStream []string
+			var aSt status.Status
+			aRes, aDone := "", false
+			recvPanic, recvDone := "", true
+			if x.P("side", 0) == 0 {
+				vsched.GoNamed("call-A", func() {
+					defer func() { aDone = true }()
+					ch, st := c.Channel(ctx, c04request("bg", 51))
+					if !st.OK() {
+						aSt = st
+						return
+					}
+					defer ch.Free()
+					for {
+						m, st := ch.Receive(ctx)
+						if !st.OK() {
+							break
+						}
+						aStream = append(aStream, string(m))
+					}
+					res, st := ch.Response(ctx)
+					aSt = st
+					if st.OK() {
+						aRes = res.String().Clone()
+					}
+				})
+			} else {
+				recvDone = false
+				vsched.GoNamed("call-A", func() {
+					defer func() { aDone = true }()
+					ch, st := c.Channel(ctx, c04request("slow", 51))
+					if !st.OK() {
+						aSt = st
+						return
+					}
+					vsched.GoNamed("A-receiver", func() {
+						defer func() {
+							if e := recover(); e != nil {
+								recvPanic = fmt.Sprint(e)
+							}
+							recvDone = true
+						}()
+						for {
+							if _, st := ch.Receive(ctx); !st.OK() {
+								return
+							}
+						}
+					})
+					ch.Free() // the owner gives the call up while the receiver may be inside Receive
+					aSt = status.OK
+					aRes = "res-51"
+				})
+			}
+			vsched.Join("call A returned", func() bool { return aDone })
+			late := &c04result{kind: "sstream", id: 52}
+			vsched.GoNamed("call-B", func() { c04call(c, late.kind, late.id, late) })
+			vsched.Join("call B returned", func() bool { return late.done })
+			vsched.WaitIdle("quiesce")
+			c04check(x, late, h, false)
+			if x.P("side", 0) == 0 {
+				if !aSt.OK() || aRes != "res-51" {
+					x.Fail("call whose handler leaves a helper goroutine behind: wrong result or status", "status=%v result=%q", aSt, aRes)
+				}
+				for _, m := range aStream {
+					if !strings.HasPrefix(m, "bg51-") {
+						x.Fail("a call received a stream message of another call", "call 51 got %q", m)
+					}
+				}
+				if h.bgStarted != h.bgDone {
+					x.Fail("an operation in flight when its call was freed never returns", "helpers started %d, returned %d", h.bgStarted, h.bgDone)
+				}
+				for _, pn := range h.bgPanics {
+					if strings.Contains(pn, "acquire of freed channel") {
+						// mpx's deliberate use-after-free report: the helper outlived the handler, the mpx channel under
+						// the call is gone. The statement does not promise a status here; what it forbids is touching a
+						// state that belongs to somebody else (nil state, another call's channel).
+						continue
+					}
+					x.Fail("an operation in flight when its call was freed panics: "+errSigRPC(pn), "%s", pn)
+				}
+				for _, code := range h.bgSts {
+					if code != string(status.CodeOK) && code != string(status.CodeClosed) && code != string(status.CodeEnd) && code != string(status.CodeCancelled) {
+						x.Fail("a late operation on a freed call ends with an unexpected status", "Send returned %q", code)
+					}
+				}
+			} else {
+				if !recvDone {
+					x.Fail("a Receive in flight when its call was freed never returns", "receiver still blocked")
+				}
+				if recvPanic != "" && !strings.Contains(recvPanic, "acquire of freed channel") {
+					x.Fail("an operation in flight when its call was freed panics: "+errSigRPC(recvPanic), "%s", recvPanic)
+				}
+			}
+			c.Close()
+			vsched.WaitIdle("quiesce")
+			x.Outcome = fmt.Sprintf("a=%s bg=%v b=%s", aSt.Code, h.bgSts, late.st.Code)
 		},
 	})
 
@@ -652,3 +876,14 @@ func init() {
 }
 
 var c04lens [2]int
+
+// errSigRPC shortens a panic text to its stable part.
+func errSigRPC(s string) string {
+	if i := strings.IndexByte(s, '\n'); i >= 0 {
+		s = s[:i]
+	}
+	if len(s) > 80 {
+		s = s[:80]
+	}
+	return s
+}
